@@ -560,12 +560,21 @@ func (c *Ctx) decodeKeepsEveryFilter() {
 			c.R.Unresolved("message." + tn + ".Decode")
 			continue
 		}
+		// the decode loop, in Decode itself or in a helper it calls
 		var loop *ir.Loop
-		for _, l := range ir.Loops(fn) {
-			for b := range l.Blocks {
-				for _, in := range b.Instrs {
-					if call, ok := in.(*ssa.Call); ok && ir.IsFunc(call.Common(), pkgMessage, "readLPBytes") {
-						loop = l
+		hosts := []*ssa.Function{fn}
+		for _, call := range ir.Calls(fn) {
+			if f := call.Common().StaticCallee(); f != nil && recvNamed(f) == tn && f.Blocks != nil {
+				hosts = append(hosts, f)
+			}
+		}
+		for _, h := range hosts {
+			for _, l := range ir.Loops(h) {
+				for b := range l.Blocks {
+					for _, in := range b.Instrs {
+						if call, ok := in.(*ssa.Call); ok && ir.IsFunc(call.Common(), pkgMessage, "readLPBytes") {
+							loop = l
+						}
 					}
 				}
 			}
